@@ -10,6 +10,11 @@ streams (features):
   list_obj_default   a list default containing an object                                     (F9b)
   coerced_default    a default literal that relies on literal coercion (scalar for a list, Int for ID)  (F9d)
   colliding_names    two fields of one input mapped to one Python name                       (F18)
+  enum_positions     enum values that are Python keywords / soft keywords / Enum-special names as defaults at every
+                     position: top level, list item, nested list, object field, list inside object, item of a list
+                     of objects, nested object (main class: a failure is a violation)
+  falsy_defaults     0, 0.0, false, "", [] as defaults of nullable and non-null fields, alone and inside object /
+                     list-of-object defaults (main class)
 
 Every scenario is a scenario.Scenario (sdl, queries, config) usable with impl/scen.generate.
 """
@@ -29,7 +34,10 @@ SPECIAL_NAMES = ["class", "from", "None", "copy", "json", "schema", "_leading", 
                  "global", "construct", "_"]
 COLLIDING = [("fooBar", "foo_bar"), ("class", "class_"), ("_a", "a"), ("copy", "copy_"), ("x1", "x_1")]
 ENUM_VALUES = ["RED", "GREEN", "BLUE", "ACTIVE", "lowercase", "MixedCase", "A1", "NONE_", "X_Y"]
-KW_ENUM_VALUES = ["None", "True", "class", "from", "import", "pass"]
+KW_ENUM_VALUES = ["None", "True", "False", "class", "from", "import", "pass", "lambda", "global"]
+SOFT_KW_ENUM_VALUES = ["type", "match", "case", "_"]
+RESERVED_ENUM_VALUES = ["name", "value", "_x", "values", "real", "title", "format", "count", "index"]  # str/Enum attributes
+SPECIAL_ENUM_VALUES = KW_ENUM_VALUES + SOFT_KW_ENUM_VALUES + RESERVED_ENUM_VALUES
 SCALARS = ["Int", "Float", "String", "Boolean", "ID"]
 
 
@@ -39,12 +47,12 @@ class G:
         self.features = tuple(features)
         self.seed = seed
 
-    def leaf_literal(self, base, allow_kw=False):
+    def leaf_literal(self, base, allow_kw=True):
         r = self.rng
         if base == "Int":
-            return str(r.choice([0, 1, -5, 42, 2147483647]))
+            return str(r.choice([0, 0, 1, -5, 42, 2147483647]))
         if base == "Float":
-            return r.choice(["1.5", "0.25", "-3.0", "1e3", "2"])
+            return r.choice(["1.5", "0.25", "-3.0", "1e3", "2", "0.0", "0"])
         if base == "String":
             return r.choice(['"abc"', '"x y"', '""', '"q\\"uote"', '"za\\u017C"', '"""block\n  text"""'])
         if base == "ID":
@@ -58,7 +66,7 @@ class G:
             return r.choice(['"2020-01-01T00:00:00"', "12"]) if base != "DateTime" else '"2020-01-01T00:00:00"'
         raise KeyError(base)
 
-    def object_literal(self, tname, depth=0, allow_enum=False):
+    def object_literal(self, tname, depth=0, allow_enum=True):
         """an object literal for input type tname with scalar / list fields (and enum fields if allowed);
         required fields without default are always given"""
         r = self.rng
@@ -130,6 +138,8 @@ class G:
             vals = r.sample(ENUM_VALUES, r.randint(2, 4))
             if "kw_enum_default" in F or r.random() < 0.35:
                 vals += r.sample(KW_ENUM_VALUES, 2)
+            if r.random() < 0.5:
+                vals += [v for v in r.sample(SOFT_KW_ENUM_VALUES + RESERVED_ENUM_VALUES, 2) if v not in vals]
             self.enums[f"Enum{chr(65 + i)}"] = vals
         self.customs = []
         if r.random() < 0.7:
@@ -195,6 +205,35 @@ class G:
                     break
         self.bad = []  # (input, field, class)
         target = names[0]
+        if "enum_positions" in F:
+            sp = [r.choice(KW_ENUM_VALUES), r.choice(SOFT_KW_ENUM_VALUES), r.choice(RESERVED_ENUM_VALUES)]
+            sp += [v for v in r.sample(SPECIAL_ENUM_VALUES, 4) if v not in sp]
+            self.enums["Special"] = sp + ["PLAIN"]
+            v = lambda i: sp[i % len(sp)]   # noqa: E731
+            self.inputs["SpLeaf"] = {"k": ("Special", None), "ks": ("[Special]", None), "sub": ("SpLeaf", None),
+                                     "kd": ("Special!", v(5))}
+            t = self.inputs[target]
+            t["spTop"] = ("Special", v(0))
+            t["spTopNN"] = ("Special!", v(1))
+            t["spList"] = ("[Special]", f"[{v(2)}, null, {v(0)}]")
+            t["spNested"] = ("[[Special!]]", f"[[{v(1)}, {v(3)}], []]")
+            t["spObj"] = ("SpLeaf", f"{{k: {v(0)}, ks: [{v(1)}, {v(2)}]}}")
+            t["spObjNN"] = ("SpLeaf!", f"{{k: {v(4)}}}")
+            t["spListObj"] = ("[SpLeaf!]", f"[{{k: {v(3)}}}, {{ks: [{v(0)}, null]}}]")
+            t["spNestedObj"] = ("SpLeaf", f"{{sub: {{k: {v(1)}, sub: {{ks: [{v(2)}]}}}}}}")
+        if "falsy_defaults" in F:
+            self.inputs["FLeaf"] = {"n": ("Int", None), "s": ("String", None), "b": ("Boolean", None),
+                                    "l": ("[Int]", None), "x": ("Float", None), "nd": ("Int!", "0"),
+                                    "sd": ("String!", '""'), "bd": ("Boolean", "false")}
+            t = self.inputs[target]
+            for i, (ty, lit) in enumerate([("Int", "0"), ("Float", "0.0"), ("Boolean", "false"), ("String", '""'),
+                                           ("ID", '""'), ("[Int]", "[]"), ("[[String!]]", "[]"), ("[Int]", "[0]"),
+                                           ("[Boolean!]", "[false]"), ("[String]", '[""]')]):
+                t[f"z{i}"] = (ty, lit)
+                t[f"zn{i}"] = (ty + "!", lit)
+            t["zObj"] = ("FLeaf", '{n: 0, s: "", b: false, l: [], x: 0.0}')
+            t["zObjNN"] = ("FLeaf!", "{n: 0}")
+            t["zListObj"] = ("[FLeaf!]!", '[{b: false}, {s: "", l: [0]}]')
         if "kw_enum_default" in F:
             en = next(iter(self.enums))
             kw = [v for v in self.enums[en] if v in KW_ENUM_VALUES][0]
